@@ -41,6 +41,8 @@ pub enum Fault {
     Obstacle { r: usize, off: u32 },
     /// hook-free, directory-component patterns: the directory of archive offset `off` is a dangling symlink
     DanglingDir { r: usize, off: u32 },
+    /// hook-free, directory-component patterns: a regular file sits where the directory of archive offset `off` belongs
+    FileAtDir { r: usize, off: u32 },
 }
 
 /// One faulted execution = what a replay file holds.
@@ -57,10 +59,10 @@ pub fn strategy() -> impl Strategy<Value = Case> {
         2 => prop::collection::vec(prop::bool::weighted(0.35), 8..=40).prop_map(|s| TrigSpec::Scripted(s, false)),
         2 => (1u32..=3).prop_map(|n| TrigSpec::Time(format!("{} seconds", n), false)),
     ];
-    let roller = (prop::sample::select(vec![0u32, 1, 7]), 1u32..=4, prop::sample::select(vec!["a.{}.log", "arch/{}/a.log", "a.{}.log.gz", "arch/{}/a.{}.log"]))
+    let roller = (prop::sample::select(vec![0u32, 1, 7]), 1u32..=6, prop::sample::select(vec!["a.{}.log", "arch/{}/a.log", "a.{}.log.gz", "arch/{}/a.{}.log"]))
         .prop_map(|(base, count, p)| RollSpec::Fixed { base, count, pattern: p.to_string() });
     let step = || (prop_oneof![4 => 0usize..100, 1 => 1000usize..1040], prop_oneof![3 => Just(0u32), 2 => 1u32..4]);
-    (trigger, roller, prop::bool::weighted(0.6), prop::collection::vec(step(), 5..=40), 1usize..=3, prop::collection::vec(step(), 3..=15), prop::bool::weighted(0.25))
+    (trigger, roller, prop::bool::weighted(0.6), prop::collection::vec(step(), 5..=40), 1usize..=3, prop::collection::vec(step(), 3..=25), prop::bool::weighted(0.25))
         .prop_map(|(trigger, roller, append_mode, history, persist, continuation, cross_device)| Case { trigger, roller, append_mode, history, persist, continuation, cross_device })
 }
 
@@ -300,7 +302,7 @@ fn execute_in(dir: &Path, image: &Path, f: &Faulted, obs: &mut Obs) -> Result<Re
                 obstacle_placed = true;
             }
         }
-        if let Fault::DanglingDir { r, off } = &f.fault {
+        if let Fault::DanglingDir { r, off } | Fault::FileAtDir { r, off } = &f.fault {
             let rot = state.lock().unwrap().rotation;
             let slot = archive_path(dir, &case.roller, *off).unwrap().parent().unwrap().to_path_buf();
             // the roller creates the slot directories ahead of use: an absent or still empty one is replaced
@@ -312,7 +314,11 @@ fn execute_in(dir: &Path, image: &Path, f: &Faulted, obs: &mut Obs) -> Result<Re
                 };
             if due && replaceable {
                 std::fs::create_dir_all(slot.parent().unwrap()).unwrap();
-                std::os::unix::fs::symlink(dir.join("no-such-volume"), &slot).unwrap();
+                if matches!(f.fault, Fault::DanglingDir { .. }) {
+                    std::os::unix::fs::symlink(dir.join("no-such-volume"), &slot).unwrap();
+                } else {
+                    std::fs::write(&slot, b"not a directory").unwrap();
+                }
                 obstacle_placed = true;
             }
         }
@@ -324,7 +330,7 @@ fn execute_in(dir: &Path, image: &Path, f: &Faulted, obs: &mut Obs) -> Result<Re
                 (0..window_count(&case.roller))
                     .filter_map(|o| archive_path(dir, &case.roller, o))
                     .filter_map(|p| p.parent().map(|x| x.to_path_buf()))
-                    .find(|slot| slot != dir && std::fs::symlink_metadata(slot).map_or(false, |m| m.file_type().is_symlink()))
+                    .find(|slot| slot != dir && std::fs::symlink_metadata(slot).map_or(false, |m| m.file_type().is_symlink() || m.is_file()))
             });
         let before = managed(dir, &case.roller, &active);
         let injected_before = state.lock().unwrap().injected;
@@ -367,7 +373,7 @@ fn execute_in(dir: &Path, image: &Path, f: &Faulted, obs: &mut Obs) -> Result<Re
             let fails = acked.iter().filter(|a| !**a).count();
             if fails >= case.persist {
                 let o = obstacle_at.as_ref().unwrap();
-                if std::fs::symlink_metadata(o).map_or(false, |m| m.file_type().is_symlink()) {
+                if std::fs::symlink_metadata(o).map_or(false, |m| m.file_type().is_symlink() || m.is_file()) {
                     let _ = std::fs::remove_file(o);
                 } else {
                     let _ = std::fs::remove_dir_all(o);
@@ -444,7 +450,7 @@ pub fn check_faulted(tmp: &Path, f: &Faulted, obs: &mut Obs) -> CaseResult {
     let count = window_count(&f.case.roller);
     let shift_step = match &f.fault {
         Fault::Error { s, .. } | Fault::Crash { s, .. } => (*s as u32) < count.saturating_sub(1),
-        Fault::Obstacle { off, .. } | Fault::DanglingDir { off, .. } => *off > 0,
+        Fault::Obstacle { off, .. } | Fault::DanglingDir { off, .. } | Fault::FileAtDir { off, .. } => *off > 0,
         Fault::None => false,
     };
     let pre = matches!(f.case.trigger, TrigSpec::Scripted(_, true) | TrigSpec::Time(..));
@@ -455,6 +461,7 @@ pub fn check_faulted(tmp: &Path, f: &Faulted, obs: &mut Obs) -> CaseResult {
         Fault::Crash { .. } => "fault=crash-image",
         Fault::Obstacle { .. } => "fault=obstacle-directory",
         Fault::DanglingDir { .. } => "fault=dangling-symlink-directory",
+        Fault::FileAtDir { .. } => "fault=regular-file-at-slot-directory",
     });
     obs.class_if(shift_step, "fault-at-shift-step");
     obs.class_if(!f.case.append_mode, "truncate-mode");
@@ -485,7 +492,11 @@ pub fn expand(tmp: &Path, case: &Case) -> Result<Vec<Faulted>, Failure> {
             for r in 0..rep.rotations.min(*count as usize) {
                 out.push(Faulted { case: case.clone(), fault: Fault::Obstacle { r, off: r as u32 } });
                 if pattern.contains("{}/") {
-                    out.push(Faulted { case: case.clone(), fault: Fault::DanglingDir { r, off: r as u32 } });
+                    // the roller prepares every slot directory of the window ahead of use: any of them may be in the way
+                    for off in (r as u32)..*count {
+                        out.push(Faulted { case: case.clone(), fault: Fault::DanglingDir { r, off } });
+                        out.push(Faulted { case: case.clone(), fault: Fault::FileAtDir { r, off } });
+                    }
                 }
             }
         }
@@ -557,7 +568,7 @@ pub fn replay(part: &str, case: serde_json::Value) -> Option<CaseResult> {
 pub fn meta() -> EvidenceMeta {
     EvidenceMeta {
         level: "fault_enumeration",
-        rule: "cases = generated histories (trigger: size / scripted pre-processing / scripted post-processing / time via the guarded clock; fixed window base in {0,1,7}, count 1-4, plain / directory-component / .gz pattern; append or truncate mode; 5-40 appends of self-delimiting records; obstruction persisting for 1-3 rotation attempts; continuation of 3-15 appends). Each history is first run dry to learn its rotations, then EVERY (rotation, step) pair - each archive shift and the final move/compress - is enumerated twice through hook H2: as an injected error (rotate aborts exactly there) and as a crash point (directory image, restart on the image in the same mode, continuation); plus hook-free obstacle directories at the destination of the final move and of the first shift. evaluations counts histories, oracle_evaluations_inside_cases counts faulted executions and appends. Oracle after every append and on every crash image: failing append returns Err and never panics; every managed file parses into whole records; archives by descending index then the active file yield an in-order duplicate-free stream that is gap-free w.r.t. acknowledged records; every chunk on disk before the operation except the top-index archive is still present byte-for-byte (active chunk may have grown); after the fault is lifted every append succeeds and a size trigger performs the pending rotation. non-trivial = a history with a fault at a shift step of a window >= 2, or any fault in truncate mode, or a pre-processing trigger".into(),
+        rule: "cases = generated histories (trigger: size / scripted pre-processing / scripted post-processing / time via the guarded clock; fixed window base in {0,1,7}, count 1-6, plain / directory-component / .gz pattern; append or truncate mode; 5-40 appends of self-delimiting records; obstruction persisting for 1-3 rotation attempts; continuation of 3-25 appends). Each history is first run dry to learn its rotations, then EVERY (rotation, step) pair - each archive shift and the final move/compress - is enumerated twice through hook H2: as an injected error (rotate aborts exactly there) and as a crash point (directory image, restart on the image in the same mode, continuation); plus hook-free obstructions: a non-empty directory at the destination of the final move / of the first shift, and (directory patterns) a dangling symlink or a regular file in place of any slot directory of the window. evaluations counts histories, oracle_evaluations_inside_cases counts faulted executions and appends. Oracle after every append and on every crash image: failing append returns Err and never panics; every managed file parses into whole records; archives by descending index then the active file yield an in-order duplicate-free stream that is gap-free w.r.t. acknowledged records; every chunk on disk before the operation except the top-index archive is still present byte-for-byte (active chunk may have grown); after the fault is lifted every append succeeds and a size trigger performs the pending rotation. non-trivial = a history with a fault at a shift step of a window >= 2, or any fault in truncate mode, or a pre-processing trigger".into(),
         assumptions: vec![
             "crash = process death with an intact page cache (directory image at hook points between steps); fsync/power loss and mid-compression crashes are not modelled".into(),
             "foreground rotation only (the statement does not quantify over background rotation)".into(),
